@@ -210,6 +210,18 @@ Theorem C04_path_loop_total : forall pre dbg l segs cur pend hh, usv_list l -> C
 Proof. exact C04_Parse.loop_total. Qed.
 Print Assumptions C04_path_loop_total.
 
+(* the authority states: parse_userinfo's second pass never runs out of characters (its
+   `next_utf8().unwrap()`: the count returned by the first pass is at most the number of characters the
+   skipping iterator yields), and parse_host_and_port has no panic outcome - any scheme type, context
+   and host functions *)
+Theorem C04_no_panic_authority_states : forall hp hpo hd ctx st se ser l,
+  parse_userinfo st ser l <> PPanic /\ parse_host_and_port hp hpo hd ctx st se ser l <> PPanic.
+Proof.
+  intros hp hpo hd ctx st se ser l.
+  exact (conj (C04_Parse.parse_userinfo_no_panic st ser l) (C04_Parse.parse_host_and_port_no_panic hp hpo hd ctx st se ser l)).
+Qed.
+Print Assumptions C04_no_panic_authority_states.
+
 (* finding F-C04-7: a file: base whose last segment looks like a drive letter, joined with "../x":
    the debug assertion of the path state fails (PPanic with debug assertions, a URL without) *)
 Definition toy_hp (s : list N) : result host := Ok (HDomain s).
